@@ -8,6 +8,12 @@ CHECKS = {
  "C01": ("exploration", "runtime monitor: snapshot-before-drop vs snapshot-after-open self-consistency over generated histories",
          "Model-free oracle run at every restart of thousands of generated histories (GC-heavy, idle-queue, delete/re-create, long-name, multi-file profiles, all persist policies); held-on-observed, with coverage floors on restarts that follow a GC unlink / an emptied queue / a delete+re-create.",
          "Trusts the public read API as the observation channel and a 64-bit content hash for payload equality; 128 KiB WAL files (hook H1).", "4/C01", "driver"),
+ "C02": ("fault_enumeration", "runtime monitor: crash-image reconstruction from an LD_PRELOAD syscall trace, recovery of every image, acceptance against states observed live",
+         "Every file-system effect boundary of each traced history plus frame-aimed torn-write cuts is turned into a directory image (process-crash model), recovered with the real open(), and required to equal the state before or after the in-flight call (or a tolerated partial truncate/delete); second-level crashes inside the recovery's own effects and model-checked continuation histories + restarts on sampled recovered logs. Exhaustive per history over effect boundaries, sampled over histories and byte cuts.",
+         "Process-crash model (program order, byte-prefix torn writes); acceptance set from observed snapshots; continuation trusts ops::Model; unmodelled syscalls => inconclusive.", "4/C02", "driver+iotrace"),
+ "C03": ("fault_enumeration", "runtime monitor: crash-image reconstruction under process-crash and simulated power-loss models for every persist policy, persist frontier from the API contract",
+         "Same engine as C02 under DoNothing / OnDelay(1h) / Always policies with explicit persist calls: at every effect boundary the process-crash image and several power-loss variants (only fsync-covered bytes survive; never-synced files absent/empty/zero-filled; optional surviving prefix of unsynced writes) must recover to a state at or after the persist frontier.",
+         "Power loss is simulated from the trace under an explicit disk model (DESIGN.md 2.2); unlink assumed durable at once; frontier derived from the statement only.", "4/C03", "driver+iotrace"),
  "C05": ("exploration", "runtime monitor: lock-step conformance of every call against a sequential reference model",
          "After every call of generated histories the outcome and the whole observable state (list/exists/range over a bound family/last_position/last_record/summary) are compared with a 90-line sequential model; release and dev-profile (overflow-checks) builds; floors on rejected/no-op shapes and ring-wrap reads.",
          "Trusted base: ops::Model written from the statement; payload equality by 64-bit hash.", "4/C05", "driver"),
